@@ -1,6 +1,6 @@
 From Coq Require Import ExtrOcamlBasic.
-From Verif Require Import Base C09.
+From Verif Require Import Base C09 C09_edges.
 Extraction Language OCaml.
 Extraction "c09_model.ml"
   Z.add Z.mul Z.opp Z.abs Z.div_eucl Z.sub Z.eqb Z.leb Z.ltb Z.of_nat Z.to_nat
-  Base.FILL C09.c09_slice_faces C09.c09_faces_touching C09.c09_lat_edges C09.c09_faces_at_lat.
+  Base.FILL C09.c09_slice_faces C09.c09_faces_touching C09.c09_lat_edges C09.c09_faces_at_lat C09_edges.c09_slice_edge_table_of C09_edges.c09_slice_edge_table.
